@@ -51,7 +51,9 @@ class QuadratureRule(object):
         but just implement :func:`~mpmath.calc_nodes` for the actual
         node computation.
         """
-        key = (a, b, degree, prec)
+        # (the types belong to the key: 0j == 0 and hashes alike, but the
+        # nodes for complex end points are complex)
+        key = (a, b, type(a), type(b), degree, prec)
         if key in self.transformed_cache:
             return self.transformed_cache[key]
         orig = self.ctx.prec
